@@ -57,6 +57,10 @@ def conv_cases(tab, quick, rnd):
                 if t == 'DataVolume':
                     a = F(abs(a.numerator) % 1000 + 1)     # integral amounts; off-grid results are skipped by the spec
                 cs.append(dict(op='conv', u=u, v=v, a=V(a), rep='frac' if a.denominator % 3 == 0 else 'dec'))
+            cs.append(dict(op='conv0', u=u, v=v, rep='dec' if len(cs) % 2 else 'frac'))
+            if t != 'DataVolume' and (not quick or (us.index(u) * 7 + us.index(v)) % 3 != 1):
+                a = amts[-1] if t != 'DataVolume' else F(abs(amts[-1].numerator) % 1000 + 1)
+                cs.append(dict(op='conv', how='str', u=u, v=v, a=V(a)))
     # other type -> IncompatibleUnitsError
     types = list(by_type)
     for t1, t2 in itertools.permutations(types, 2):
@@ -185,7 +189,9 @@ def confirm_plain(ctx, cs, example):
 def _brief(e):
     op = e['op']
     if op in ('conv', 'convx'):
-        return '%s %s -> %s (amount %s)' % (op, e['u'], e['v'], _f(e['a']))
+        return '%s%s %s -> %s (amount %s)' % (op, ' via text' if e.get('how') == 'str' else '', e['u'], e['v'], _f(e['a']))
+    if op == 'conv0':
+        return 'conv 0 %s -> %s' % (e['u'], e['v'])
     if op in ('mul', 'div'):
         return '%s %s[%s %s] %s[%s %s]' % (op, e['x']['kind'], _f(e['x']['a']), e['x']['s'],
                                            e['y']['kind'], _f(e['y']['a']), e['y']['s'])
